@@ -218,6 +218,15 @@ func onlyOwnTags(tags []string) []string {
 	return nil
 }
 
+func hasTag(a []string, t string) bool {
+	for _, x := range a {
+		if x == t {
+			return true
+		}
+	}
+	return false
+}
+
 func sharesTag(a, b []string) bool {
 	for _, x := range a {
 		for _, y := range b {
@@ -339,7 +348,7 @@ func sortOf(t types.Type) string {
 	case isAny(t), isTreeMap(t), isTreeList(t):
 		return "Val"
 	case isStringList(t):
-		return "SLst"
+		return "SSlice" // nil or a sequence of strings: []string nil-ness is observable (file.parents)
 	case isByteSlice(t):
 		return "String"
 	case isUTF8String(t):
@@ -393,6 +402,8 @@ func zeroOf(t types.Type) string {
 		return "VNil"
 	case "SLst":
 		return "SNil"
+	case "SSlice":
+		return "SliceNil"
 	case "RLst":
 		return "RNil"
 	case "String":
@@ -709,6 +720,7 @@ func verifyFunc(w *World, fi *FuncInfo, sweep bool) (res *FuncResult) {
 		e.obs = append(e.obs, ob)
 	}
 	entry := st
+	nEntryPC := len(st.pc)
 	fr.ret = func(st *State, vals []string) {
 		e.npaths++
 		if e.npaths > maxPaths {
@@ -731,8 +743,25 @@ func verifyFunc(w *World, fi *FuncInfo, sweep bool) (res *FuncResult) {
 				names[rn] = vals[i]
 			}
 		}
+		postStart := len(st.pc)
 		for i, en := range c.Ensures {
 			goal := e.clause(en.X, st, names, fi.Decl.Body.Rbrace, info, clausePost)
+			if en.Follows {
+				// a consequence of the entry facts and the earlier ensures alone: the path is dropped from the query
+				cut := st.clone()
+				cut.pcTags = map[int][]string{}
+				cut.pc = append([]string(nil), st.pc[:nEntryPC]...)
+				for j := postStart; j < len(st.pc); j++ {
+					if tg, ok := st.pcTags[j]; ok {
+						cut.pcTags[len(cut.pc)] = tg
+					}
+					cut.pc = append(cut.pc, st.pc[j])
+				}
+				cut.guards = nil
+				e.emit(cut, "post", fmt.Sprintf("post[%d]", i+1), goal, en.Tags, fi.Decl.Pos(), en.Src)
+				st.assumeTagged(goal, en.Tags)
+				continue
+			}
 			e.emit(st, "post", fmt.Sprintf("post[%d]", i+1), goal, en.Tags, fi.Decl.Pos(), en.Src)
 			// clauses are proved in order: earlier ones may be used for later ones on the same path
 			st.assumeTagged(goal, en.Tags)
